@@ -341,7 +341,7 @@ func rsemScenario(c *Ctx, sh *shard, scen int) {
 	must(err)
 	eng.Start()
 	defer func() {
-		sctx, cancel := context.WithTimeout(ctx, 20*time.Second)
+		sctx, cancel := context.WithTimeout(ctx, 120*time.Second)
 		eng.Stop(sctx)
 		cancel()
 	}()
